@@ -318,6 +318,14 @@ def c17_base_programs():
     out = []
     # a file without any header or definition (the dump of its AST is the empty text)
     out.append({"name": "rt_blank", "files": [{"path": "rt_blank.thrift", "defs": []}], "raw": {"rt_blank.thrift": "// nothing\n"}})
+    # comments are not part of the equality, but the dumper re-emits them: they must not break the dumped text
+    out.append({"name": "rt_comments", "files": [{"path": "rt_comments.thrift", "defs": [
+        {"k": "struct", "name": "S", "fields": []}, {"k": "enum", "name": "E", "values": []}, {"k": "service", "name": "V", "functions": []}]}],
+        "raw": {"rt_comments.thrift":
+                '// say "hi" & \'bye\' ##34; #OUTQUOTES &amp; \\"\n'
+                'struct S { // trailing "c"\n  1: i32 a /* block "q" & */\n  # unix "u"\n  2: string b = "x" // "after"\n}\n'
+                '/* multi\n   line "m" */\nenum E {\n  A = 1, // "a"\n  /* b */ B\n}\n'
+                '# svc "s"\nservice V {\n  // fn "f"\n  void f(1: i32 x) // tail\n}\n'}})
     out.append(prog("rt_headers", cpp_includes=["<vector>", "a/b.h"],
                     namespaces=[{"lang": "go", "name": "main.pkg", "ann": [A("ns", "a"), A("ns", "b")]},
                                 {"lang": "*", "name": "star"}, {"lang": "py", "name": "p"}]))
